@@ -655,6 +655,12 @@ impl<V: VringT<GM> + Clone + Send + Sync + 'static> Rig<V> {
                 if live_workers() < self.nthreads {
                     return false;
                 }
+                // a worker that sits in a lock wait (futex) in every sample of a second while its barrier is raised is
+                // blocked for good (a deadlock is data, like a terminated worker); anything else just takes longer
+                if t0.elapsed() > Duration::from_secs(2) && workers_stuck_on_lock() {
+                    WORKER_STUCK.store(true, std::sync::atomic::Ordering::SeqCst);
+                    return false;
+                }
                 if t0.elapsed() > Duration::from_secs(60) {
                     eprintln!("TOOL-ERROR: worker alive but barrier not dispatched within 60 s");
                     std::process::exit(3);
@@ -689,6 +695,14 @@ impl<V: VringT<GM> + Clone + Send + Sync + 'static> Rig<V> {
 
     pub fn finish(self) -> Arc<Log> {
         let Rig { peer, dropper, log, restart, path, .. } = self;
+        if WORKER_STUCK.load(std::sync::atomic::Ordering::SeqCst) {
+            // joining a deadlocked worker would never return: the daemon is left behind and the process ends after this case
+            drop(peer);
+            std::mem::forget(dropper);
+            std::mem::forget(restart);
+            let _ = std::fs::remove_file(&path);
+            return log;
+        }
         drop(peer);
         dropper();
         drop(restart);
@@ -735,8 +749,50 @@ pub fn run(cases: &[Value], trace: &mut Trace, seed: u64) {
             std::thread::sleep(Duration::from_millis(1));
             after = thread_count();
         }
-        trace.emit(json!({"ev": "threads", "before": watch_threads, "after": after, "exit": case["exit"].as_bool().unwrap_or(true)}));
+        let stuck = WORKER_STUCK.load(std::sync::atomic::Ordering::SeqCst);
+        // with a deadlocked worker left behind the thread count says nothing about teardown
+        trace.emit(json!({"ev": "threads", "before": watch_threads, "after": if stuck { watch_threads } else { after }, "exit": case["exit"].as_bool().unwrap_or(true)}));
+        if stuck {
+            trace.flush();
+            eprintln!("vh daemon: a worker thread is blocked on a lock for good; ending this process after case {k}");
+            std::process::exit(77);
+        }
     }
+}
+
+/// set when a worker of this process was found blocked on a lock for good; the process ends after the current case
+/// (exit status 77: the driver runs the remaining cases in a fresh process)
+pub static WORKER_STUCK: std::sync::atomic::AtomicBool = std::sync::atomic::AtomicBool::new(false);
+
+/// is some worker thread waiting on a futex (system call 202 on x86-64, 98 on aarch64) in each of five samples 200 ms apart,
+/// without any of them having entered another system call in between?
+pub fn workers_stuck_on_lock() -> bool {
+    let futex_nr = if cfg!(target_arch = "aarch64") { "98" } else { "202" };
+    let sample = || -> Vec<(String, String)> {
+        let mut v = Vec::new();
+        if let Ok(d) = std::fs::read_dir("/proc/self/task") {
+            for e in d.flatten() {
+                if std::fs::read_to_string(e.path().join("comm")).map(|c| c.trim() == "vring_worker").unwrap_or(false) {
+                    let sc = std::fs::read_to_string(e.path().join("syscall")).unwrap_or_default();
+                    let ctx = std::fs::read_to_string(e.path().join("status")).unwrap_or_default();
+                    let sw: String = ctx.lines().filter(|l| l.contains("ctxt_switches")).collect::<Vec<_>>().join(",");
+                    v.push((e.file_name().to_string_lossy().to_string(), format!("{}|{}", sc.split_whitespace().next().unwrap_or(""), sw)));
+                }
+            }
+        }
+        v
+    };
+    let first = sample();
+    let mut cand: Vec<(String, String)> = first.into_iter().filter(|(_, s)| s.split('|').next() == Some(futex_nr)).collect();
+    for _ in 0..4 {
+        std::thread::sleep(Duration::from_millis(200));
+        let now = sample();
+        cand.retain(|c| now.contains(c));
+        if cand.is_empty() {
+            return false;
+        }
+    }
+    true
 }
 
 /// number of live threads named "vring_worker" (the daemon's workers) in this process
